@@ -44,14 +44,27 @@ func cmdFuzz(args []string) {
 		d := gh.Def{Ev: "def", ID: defID, Cfg: cfg, Disp: disp, SP: true}
 		per := 1 + r.Intn(6)
 		type cs struct {
-			argv []string
-			comp string
+			argv    []string
+			comp    string
+			raw     bool
+			rawLine string
+			rawArgs []string
 		}
 		list := []cs{}
 		all := []gh.Tok{}
 		for k := 0; k < per; k++ {
 			c := cs{}
-			if r.Intn(4) == 0 {
+			if r.Intn(12) == 0 {
+				// a verbatim COMP_LINE (white space only, leading / repeated white space, no program name ...)
+				// with arbitrary Parse arguments
+				c.comp = []string{"bash", "zsh"}[r.Intn(2)]
+				c.raw = true
+				c.rawLine = rawCompLine(r, &cfg)
+				for k := r.Intn(5); k > 0; k-- {
+					c.rawArgs = append(c.rawArgs, []string{"", "prog", "x", "--", "-", fuzzToken(r, &cfg)}[r.Intn(6)])
+				}
+				c.argv = []string{}
+			} else if r.Intn(4) == 0 {
 				c.comp = []string{"bash", "zsh"}[r.Intn(2)]
 				c.argv = gh.GenCompLine(r, &p, &cfg)
 				for i := range c.argv {
@@ -81,7 +94,8 @@ func cmdFuzz(args []string) {
 		block := [][]byte{}
 		for _, c := range list {
 			id++
-			cc := gh.Case{Ev: "case", Def: defID, ID: *idBase + id, Argv: gh.ToksOf(c.argv), Disp: disp && c.comp == "", Comp: c.comp}
+			cc := gh.Case{Ev: "case", Def: defID, ID: *idBase + id, Argv: gh.ToksOf(c.argv), Disp: disp && c.comp == "", Comp: c.comp,
+				UseRaw: c.raw, RawLine: c.rawLine, RawArgs: c.rawArgs}
 			cc.Res = gh.RunCase(&d, &cc)
 			cases++
 			countCase(&cc)
@@ -110,7 +124,7 @@ func cmdFuzz(args []string) {
 				os.WriteFile(name, b, 0o644)
 				fmt.Printf("FUZZFAIL kind=%q file=%s argv=%q\n", bad, name, c.argv)
 			}
-			if atomSafe(&cfg, c.argv, c.comp) {
+			if !c.raw && atomSafe(&cfg, c.argv, c.comp) {
 				line, _ := json.Marshal(&cc)
 				block = append(block, line)
 				validated++
@@ -130,6 +144,32 @@ func cmdFuzz(args []string) {
 	f.Close()
 	fmt.Printf("fuzz cases=%d nontrivial=%d validated=%d fails=%d\n", cases, nontrivial, validated, fails)
 	printStats()
+}
+
+func rawCompLine(r *rand.Rand, c *gh.Cfg) string {
+	ws := []string{" ", "  ", "\t", "\n", " \t ", "\r\n", "\f"}
+	switch r.Intn(6) {
+	case 0:
+		return ws[r.Intn(len(ws))]
+	case 1:
+		return ws[r.Intn(len(ws))] + ws[r.Intn(len(ws))]
+	case 2:
+		return ws[r.Intn(len(ws))] + "prog" + ws[r.Intn(len(ws))]
+	case 3:
+		return "prog" + ws[r.Intn(len(ws))] + noNul(fuzzToken(r, c)) + ws[r.Intn(len(ws))]
+	case 4:
+		return noNul(fuzzToken(r, c))
+	default:
+		return "prog " + strings.Join([]string{noNul(fuzzToken(r, c)), noNul(fuzzToken(r, c))}, ws[r.Intn(len(ws))])
+	}
+}
+
+func noNul(s string) string {
+	s = strings.ReplaceAll(s, "\x00", "0")
+	if s == "" {
+		return "x"
+	}
+	return s
 }
 
 func noSpace(s string) string {
